@@ -87,7 +87,7 @@ func layoutLaws(f string) string {
 		}
 		word := firstWord(code)
 		d := depth
-		if len(brackets) > 0 && (code == "]" || code == "}") {
+		if len(brackets) > 0 && (strings.HasPrefix(code, "]") || strings.HasPrefix(code, "}")) {
 			d = brackets[len(brackets)-1]
 		} else if len(brackets) == 0 && (word == "end" || word == "else") {
 			d = depth - 1
@@ -98,10 +98,18 @@ func layoutLaws(f string) string {
 		if code == "" { // comment line
 			continue
 		}
+		// multi-line literals: a line that opens more brackets than it closes starts one (its elements are one level
+		// deeper), a line that starts with the closing bracket ends it
+		net := bracketNet(code)
 		if len(brackets) > 0 {
-			if code == "]" || code == "}" {
+			if strings.HasPrefix(code, "]") || strings.HasPrefix(code, "}") {
 				depth = brackets[len(brackets)-1]
 				brackets = brackets[:len(brackets)-1]
+				net++ // the closing bracket of this line has been accounted for
+			}
+			if net > 0 {
+				brackets = append(brackets, depth)
+				depth++
 			}
 			continue
 		}
@@ -111,12 +119,39 @@ func layoutLaws(f string) string {
 		case "end":
 			depth--
 		}
-		if strings.HasSuffix(code, "[") || strings.HasSuffix(code, "{") {
+		if net > 0 {
 			brackets = append(brackets, depth)
 			depth++
 		}
 	}
 	return ""
+}
+
+// bracketNet counts opening minus closing square and curly brackets outside string literals.
+func bracketNet(code string) int {
+	n, inStr, esc := 0, false, false
+	for i := 0; i < len(code); i++ {
+		c := code[i]
+		if inStr {
+			if esc {
+				esc = false
+			} else if c == '\\' {
+				esc = true
+			} else if c == '"' {
+				inStr = false
+			}
+			continue
+		}
+		switch c {
+		case '"':
+			inStr = true
+		case '[', '{':
+			n++
+		case ']', '}':
+			n--
+		}
+	}
+	return n
 }
 
 func commentStart(s string) int {
